@@ -27,6 +27,16 @@ executed in LOCK-STEP through three drivers and every step is compared.
      requests depending on the previous answer) on ``h5py.File``, ``IH5Record``,
      ``IH5MFRecord``; the three traces are compared with each other (oracle) and with the trace
      the model computes for the same client and schedule (correspondence, ``run_c09``).
+ (C) plain-tree models (always on, no implementation involved except for a small h5py sample):
+     the development has two hand-written models of "one plain HDF5-like tree" - the
+     specification tree of ``IH5/Overlay.v`` (``t_step``; this file's theorems are stated over
+     it) and the tree of ``Toc/UserView.v`` (``u_step``; the container theorems C06-C08/C20 are
+     proved over it).  "Container theorems transfer to the IH5 driver by C09" needs both to be
+     the same thing: ``props/bridge.py`` runs a few hundred operation lists of the common fragment
+     through both (runner entry ``bridge``, ``coq/Bridge/BridgeRun.v``) and compares result
+     class and whole tree per step; ``C09_bridge_step`` / ``_run`` / ``_overlay_view`` /
+     ``_driver_view`` prove it for every operation kind of the common fragment.
+     Evidence: ``coverage.plain_tree_models_agree``.
 """
 from __future__ import annotations
 
@@ -36,6 +46,7 @@ from typing import Any, Dict, List, Optional, Tuple
 import ih5lib
 import vlib
 from ih5lib import dec, enc
+from props import bridge
 
 OP_TIMEOUT = 60      # per operation / observation; generous because the machine is shared
 DRIVERS = ["h5", "ih5", "mf"]
@@ -1248,6 +1259,17 @@ def run(ctx: vlib.Ctx):
     vlib.log(f"c09: container lock-step {t1 - t0:.1f}s, protocol lock-step + model {t2 - t1:.1f}s, crosscheck {time.time() - t2:.1f}s, "
              f"workers {vlib.NPROC}")
 
+    # ---- (C) the two plain-tree models against each other (all generation above is done: the
+    # draws from ctx.rng here do not shift the histories of (A) and (B))
+    try:
+        br = bridge.run_selftest(ctx.budget(300, 3000), rng, maxlen=ctx.budget(18, 26), h5_sample=ctx.budget(20, 120),
+                                 crosscheck=ctx.budget(3, 12))
+    except Exception as e:  # noqa: BLE001
+        br = {"agree": False, "error": f"{type(e).__name__}: {e}"[:400], "disagreements": [], "disagreement_count": 0}
+    cov["plain_tree_models_agree"] = br
+    vlib.log(f"c09: plain-tree models ({br.get('op_lists')} operation lists, {br.get('steps_compared')} steps compared): "
+             f"{'agree' if br['agree'] else 'DISAGREE'} in {br.get('wall_s')}s")
+
     # ---- oracle hits: a few per (level, aspect, op kind), shrink, dedupe by signature
     groups: Dict[str, List[Dict[str, Any]]] = {}
     for h in sorted(hits, key=lambda h: (h["step"], len(h["ops"]))):
@@ -1317,6 +1339,16 @@ def run(ctx: vlib.Ctx):
         ctx.violation("proof obligations of Properties/C09.v do not check: " + "; ".join(proof["problems"])[:500],
                       {"kind": "proof", "theorem_file": "coq/Properties/C09.v", "problems": proof["problems"]},
                       found_input=False)
+    if not br["agree"]:
+        b0 = (br.get("disagreements") or [None])[0]
+        h0 = ((br.get("h5py_three_way_sample") or {}).get("differences") or [None])[0]
+        why = (b0["what"] if b0 else "both models differ from h5py.File" if h0 else
+               br.get("error") or "extracted runner and in-Coq evaluation of run_bridge disagree")
+        ctx.violation(f"{bridge.BRIDGE_NAME}: the two plain-tree models are not the same tree, the transfer of the container "
+                      f"theorems to the IH5 driver through C09 is not justified: {why}"[:600],
+                      {"kind": "correspondence", "correspondence": bridge.BRIDGE_NAME + " (coq/Bridge/BridgeRun.v run_bridge, harness/props/bridge.py)",
+                       "smallest_disagreement": b0, "h5py_difference": h0, "count": br.get("disagreement_count"),
+                       "error": br.get("error"), "coq_crosscheck": br.get("coq_crosscheck")}, found_input=False)
     if disagreements and not ctx.violations and not ctx.known_hits:
         d0 = min(disagreements, key=lambda d: len(d.get("ops", [])))
         ctx.violation("model/implementation correspondence broken but the three drivers agree on every explored history: " + d0["kind"],
